@@ -55,11 +55,16 @@ func runC14(c *core.Ctx) {
 		c.Doc("C13.table", "the registration table is read and written under its mutex and not used after the lock is released", 8)
 		guardedBy(c, lc13, newEntryLocks(c, lc13), "C13.table", guardedField{Rel: "bus", Struct: "signalHandler", Field: "signals", Mutex: "signalsMutex",
 			Reason: "registrations are added/removed by the mailbox goroutine, by disconnect closers and read by emitters"})
+		ruleInferredGuards(c, lc13, newEntryLocks(c, lc13), "C13.table")
 	}
 	if a := getEP(c, "C14.anchors"); a != nil {
 		c.Doc("C13.forwarding", "subscribers are forwarded Event messages only, in order, channel closed once", 6)
 		ruleForwarders(c, a)
 	}
+	c.Doc("C14.stateless-meta", "MetaObject lookups (the id a change event is emitted under) keep no package-level cache", 1)
+	rulePackageKeepsNoCache(c, "C14.stateless-meta", "type/object")
+	c.Doc("C13.sequential", "change events are written to every subscriber by the emitting goroutine, in order (rule shared with C13)", 1)
+	ruleEmitSequential(c, "C13.sequential")
 }
 
 func ruleValidateSaveNotify(c *core.Ctx, recv, name string) {
